@@ -172,13 +172,15 @@ int main(int argc, char** argv)
     }
     catch(const sbe_error& e)
     {
-        reporter.error(e.what());
+        // the message is not a format string, it can contain `{`/`}` from schema
+        reporter.error("{}", e.what());
         return 1;
     }
     catch(const std::exception& e)
     {
         // e.g. a directory given as the schema file, `std::bad_alloc`
-        reporter.error(e.what());
+        // the message is not a format string, it can contain `{`/`}` from schema
+        reporter.error("{}", e.what());
         return 1;
     }
 
